@@ -33,18 +33,20 @@ IN = "models/model.pt"
 TENSOR = b"ctorch._utils\n_rebuild_tensor_v2\n((X\x07\x00\x00\x00storagectorch\nFloatStorage\nX\x01\x00\x00\x000X\x03\x00\x00\x00cpuK\x04tQK\x00K\x02K\x02\x86K\x02K\x01\x86\x89ccollections\nOrderedDict\n)RtR"
 
 
-def _models(tier: str):
+def _models(tier: str = "thorough"):
+    """Model pickles of the shapes torch.save writes: (label, bytes, used for call sequences as well)."""
+    import collections
     import pickle
 
-    ms = [
+    return [
         ("a state dict (OrderedDict of one tensor, BINPERSID storage, BUILD of _metadata; protocol 2)", b"\x80\x02ccollections\nOrderedDict\n)R(X\x01\x00\x00\x00w" + TENSOR + b"u}X\x09\x00\x00\x00_metadataccollections\nOrderedDict\n)Rsb."),
+        ("a nested container {'layers': [t, (t, t)], 'step': 3} (protocol 2, memoised)", b"\x80\x02}q\x00(X\x06\x00\x00\x00layersq\x01]q\x02(" + TENSOR + b"q\x03" + TENSOR + b"q\x04h\x03\x86q\x05eX\x04\x00\x00\x00stepq\x06K\x03u."),
+        ("a plain container saved with pickle_protocol=4 (framed)", pickle.dumps({"weights": [1.5, 2.5], "shape": (2, 1), "name": "m", "empty": []}, 4)),
+        ("an OrderedDict state dict saved with pickle_protocol=4 (built by a call, MEMOIZE only)", pickle.dumps(collections.OrderedDict([("w", [1.5, 2.5]), ("b", (0.5,))]), 4)),
+        ("an empty tuple (protocol 2, nothing memoised)", b"\x80\x02)."),
+        ("a dict with a non-ASCII key 'd\u00e9codeur.weight' (protocol 2)", pickle.dumps({"d\u00e9codeur.weight": [1.5], "\u5c42": 2}, 2)),
+        ("a dict with a 300-character key (protocol 2)", pickle.dumps({"k" * 300: 1, "short": ("x" * 70000)[:3]}, 2)),
     ]
-    if tier == "thorough":
-        ms += [
-            ("a nested container {'layers': [t, (t, t)], 'step': 3} (protocol 2, memoised)", b"\x80\x02}q\x00(X\x06\x00\x00\x00layersq\x01]q\x02(" + TENSOR + b"q\x03" + TENSOR + b"q\x04h\x03\x86q\x05eX\x04\x00\x00\x00stepq\x06K\x03u."),
-            ("a plain container saved with pickle_protocol=4 (framed)", pickle.dumps({"weights": [1.5, 2.5], "shape": (2, 1), "name": "m", "empty": []}, 4)),
-        ]
-    return ms
 
 
 def _archive(model: bytes, order: int = 0):
@@ -171,6 +173,15 @@ class FS:
         r.fields["parent"] = Record("Path", {"p": posixpath.dirname(p)})
         return r
 
+    def stat(self, p, *a, **k):
+        p = _p(p)
+        if p not in self.files:
+            raise PyRaise("FileNotFoundError")
+        # modification time = the number of file-system events so far that touched this path; size = total member bytes
+        mt = 1 + sum(1 for e in self.log if e[0] in ("write", "rename", "copy") and p in e[1:])
+        size = sum(len(n) + len(d) + 30 for n, d in self.files[p])
+        return Record("stat_result", {"st_mtime_ns": mt * 10**9, "st_mtime": float(mt), "st_size": size, "st_ino": abs(hash(p)) % 10**6, "st_dev": 1, "st_mode": 0o100644})
+
     def remove(self, p):
         p = _p(p)
         if p not in self.files:
@@ -198,7 +209,7 @@ def _setup(repo: Repo, fs: FS):
     from .props.c06 import _fresh_objeval
 
     oe = _fresh_objeval(repo)
-    for mod in ("os", "warnings", "zipfile", "shutil", "tempfile"):
+    for mod in ("os", "os.path", "warnings", "zipfile", "shutil", "tempfile"):
         oe.externals[mod] = ModuleRef(mod, oe)
     oe.externals["zipfile.ZipFile"] = Native(fs.zipfile, "ZipFile")
     oe.externals["zipfile.is_zipfile"] = Native(lambda p: _p(p) in fs.files, "is_zipfile")
@@ -208,6 +219,11 @@ def _setup(repo: Repo, fs: FS):
     oe.externals["os.rename"] = Native(fs.rename, "os.rename")
     oe.externals["os.replace"] = Native(fs.rename, "os.replace")
     oe.externals["os.fspath"] = Native(_p, "os.fspath")
+    oe.externals["os.stat"] = Native(fs.stat, "os.stat")
+    oe.externals["os.path.abspath"] = Native(lambda p: "/cwd/" + _p(p) if not _p(p).startswith("/") else _p(p), "os.path.abspath")
+    oe.externals["os.path.realpath"] = oe.externals["os.path.abspath"]
+    oe.externals["os.path.getmtime"] = Native(lambda p: fs.stat(p).fields["st_mtime"], "os.path.getmtime")
+    oe.externals["os.path.getsize"] = Native(lambda p: fs.stat(p).fields["st_size"], "os.path.getsize")
     oe.externals["os.path.exists"] = Native(lambda p: _p(p) in fs.files, "os.path.exists")
     oe.externals["shutil.move"] = Native(fs.rename, "shutil.move")
     oe.externals["shutil.copy"] = Native(fs.copy, "shutil.copy")
@@ -255,7 +271,7 @@ def archive_world(repo: Repo, mlabel: str, model: bytes, order: int, eager: bool
             continue
         _, wn, overwrite = op
         n_inj += 1
-        payload = f"print('payload {n_inj}')"
+        payload = f"print('payload {n_inj}')" if n_inj != 2 else "print('payload 2', " + ", ".join(f"'{c}'" for c in "abcdefghij" * 10) + ")"  # > 255 bytes
         out = f"scratch/out{n_inj}.pt" if order != 1 else f"scratch/{n_inj}/model.pt"  # order 1: same file name, other directory
         before = {p: list(ms) for p, ms in fs.files.items()}
         s_in = before[IN]
@@ -291,7 +307,7 @@ def archive_world(repo: Repo, mlabel: str, model: bytes, order: int, eager: bool
         names_in, names_out = [n for n, _ in s_in], [n for n, _ in a_out]
         if names_out != names_in:
             devs.append((f"member-names:{kind}", f"{where}: members {names_out}, the input has {names_in}"))
-            continue
+            return devs
         m_in = m_out = None
         for (n, d_in), (_, d_out) in zip(s_in, a_out):
             if n in ("archive/data.pkl", "model_v2/data.pkl"):
@@ -299,12 +315,14 @@ def archive_world(repo: Repo, mlabel: str, model: bytes, order: int, eager: bool
             elif d_in != d_out:
                 devs.append((f"member-bytes:{kind}:{n}", f"{where}: member {n} is {d_out[:20]!r}, the input's is {d_in[:20]!r}"))
         # ---- the model pickle
+        if m_in is None:
+            raise AnalysisError("the world's archive has no model pickle")
         b_in, b_out = _behaviour(m_in), _behaviour(m_out)
         if b_in[0] != "ok":
             raise AnalysisError(f"the world's own model pickle does not load with stand-ins: {b_in}")
         if b_out[0] != "ok":
             devs.append((f"model-pickle-unloadable:{kind}:{b_out[1]}", f"{where}: the emitted model pickle does not load ({b_out[1]})"))
-            continue
+            return devs
         execs_in = [e for e in b_in[2] if e[0] == ("builtins", "exec")]
         execs_out = [e for e in b_out[2] if e[0] == ("builtins", "exec")]
         rest_in = [e for e in b_in[2] if e[0] != ("builtins", "exec")]
@@ -325,13 +343,15 @@ def archive_world(repo: Repo, mlabel: str, model: bytes, order: int, eager: bool
             devs.append((f"model-calls-changed:{kind}", f"{where}: the reconstruction calls of the model differ: {[e[0] for e in rest_out][:6]} vs {[e[0] for e in rest_in][:6]}"))
         if not V.same_value(b_in[1], b_out[1]):
             devs.append((f"model-not-equal:{kind}", f"{where}: loading returns {b_out[1]!r:.80}, the input's model is {b_in[1]!r:.80}"))
+        if devs:
+            return devs  # what follows a broken step is not a world of the property any more
     return devs
 
 
-def _sequences(tier: str):
+def _sequences(n_max: int):
     steps = [("inject", w, ow) for w in ("w1", "w2") for ow in (False, True)] + [("read", "w1"), ("read", "w2")]
     seqs = []
-    for n in (1, 2, 3) if tier == "thorough" else (1, 2):
+    for n in range(1, n_max + 1):
         for s in itertools.product(steps, repeat=n):
             if not any(o[0] == "inject" for o in s):
                 continue
@@ -341,6 +361,11 @@ def _sequences(tier: str):
                 continue  # a trailing read decides nothing
             seqs.append(s)
     return seqs
+
+
+# three-step sequences the quick tier keeps: a wrapper that looked at the file, the file replaced by another wrapper, then the
+# first one injecting; and three injections through one wrapper
+TARGETED = [(("read", "w1"), ("inject", "w2", True), ("inject", "w1", ow)) for ow in (False, True)] + [(("inject", "w1", a), ("inject", "w1", b), ("inject", "w1", False)) for a in (False, True) for b in (False, True)]
 
 
 _TREPO = None
@@ -367,16 +392,21 @@ def explore(repo: Repo, tier: str):
     global _TREPO
     _TREPO = repo
     items = []
-    for mi, (ml, model) in enumerate(_models(tier)):
-        for ops in _sequences(tier if mi == 0 else "quick"):
+    for mi, (ml, model) in enumerate(_models()):
+        if mi == 0:
+            seqs = _sequences(3 if tier == "thorough" else 2) + ([] if tier == "thorough" else TARGETED)
+        else:
+            seqs = _sequences(2 if tier == "thorough" else 1) + ([] if tier == "thorough" else [TARGETED[1], TARGETED[-1]])
+        for ops in seqs:
             for eager in (False, True):
-                if eager and len({o[1] for o in ops}) == 1 and ops[0][0] == "inject" and len(ops) == 1:
+                if eager and (len(ops) == 1 or (mi != 0 and tier != "thorough")):
                     continue
                 items.append((ml, model, 0, eager, ops))
-        for order in (1, 2, 3, 4, 5, 6) if (tier == "thorough" and mi == 0) else (1, 6):
+        for order in (1, 2, 3, 4, 5, 6) if (tier == "thorough" or mi == 0) else (1, 6):
             items.append((ml, model, order, False, (("inject", "w1", False),)))
             items.append((ml, model, order, False, (("inject", "w1", True),)))
-            items.append((ml, model, order, False, (("inject", "w1", True), ("inject", "w1", False))))
+            if order in (1, 6):
+                items.append((ml, model, order, False, (("inject", "w1", True), ("inject", "w1", False))))
     jobs = min(int(os.environ.get("SA_JOBS", "16")), os.cpu_count() or 1)
     chunks = [items[i::jobs] for i in range(jobs)]
 
